@@ -160,6 +160,11 @@ fn note_drop(is_key: bool, n: u64, serial: u64) {
     }
 }
 
+/// is this tracked object still alive (not yet dropped)? serial 0 = harness probe, always fine
+pub fn serial_alive(serial: u64) -> bool {
+    serial == 0 || ALIVE.with(|a| a.borrow().contains(&serial))
+}
+
 pub fn alive_count() -> usize {
     ALIVE.with(|a| a.borrow().len())
 }
@@ -567,6 +572,9 @@ impl FK {
     pub fn probe(n: u64) -> Self {
         FK { n, serial: 0 }
     }
+    pub fn is_alive(&self) -> bool {
+        serial_alive(self.serial)
+    }
 }
 impl Clone for FK {
     fn clone(&self) -> Self {
@@ -619,6 +627,9 @@ pub struct FV {
 impl FV {
     pub fn new(n: u64) -> Self {
         FV { n, serial: new_serial() }
+    }
+    pub fn is_alive(&self) -> bool {
+        serial_alive(self.serial)
     }
 }
 impl Clone for FV {
